@@ -227,14 +227,17 @@ Proof.
 Qed.
 
 (* ---------------------------------------------------------------- converter job body *)
-Lemma fold_guard (cch : N -> option N) nx l : forall acc i,
-  mem i (fold_left (fun a x => match cch x with Some _ => a | None => if x <? nx then add1 x a else a end) l acc) = true ->
+Lemma conv_ok_lt bad nx c i : conv_ok bad nx c i = true -> i < nx.
+Proof. unfold conv_ok. intros H. apply andb_true_iff in H. apply N.ltb_lt. exact (proj1 H). Qed.
+
+Lemma fold_guard (cch : N -> option N) bad nx c l : forall acc i,
+  mem i (fold_left (fun a x => match cch x with Some _ => a | None => if conv_ok bad nx c x then add1 x a else a end) l acc) = true ->
   mem i acc = true \/ i < nx.
 Proof.
   induction l; simpl; intros acc i H; [left; exact H|].
   apply IHl in H. destruct H as [H|H]; [|right; exact H].
   destruct (cch a) eqn:E; [left; exact H|].
-  destruct (N.ltb_spec a nx); [|left; exact H].
+  destruct (conv_ok bad nx c a) eqn:CO; [apply conv_ok_lt in CO|left; exact H].
   rewrite mem_add1 in H. apply orb_true_iff in H. destruct H as [H|H]; [left; exact H|].
   apply N.eqb_eq in H. subst. right. assumption.
 Qed.
@@ -252,7 +255,7 @@ Qed.
 Lemma mem_true_ne0 i s : mem i s = true -> s <> 0.
 Proof. intros H E. subst. rewrite mem_0 in H. discriminate. Qed.
 
-Lemma cinv_body_convert k p st : Cinv st -> Cinv (step k p ABodyConvert st).
+Lemma cinv_body_convert k p bad st : Cinv st -> Cinv (step k p (ABodyConvert bad) st).
 Proof.
   intros (A & B & C). simpl. destruct (jconv st) as [j|] eqn:J; [|exact (conj A (conj B C))].
   destruct (cj_done j); [exact (conj A (conj B C))|].
@@ -409,13 +412,13 @@ Definition w_prefix : list (N * action) :=
 (* converter job parked at start, an import extends stream 0, then the job runs *)
 Definition w_inflight : list (N * action) :=
   w_prefix ++ [(0, AImport [1]); (0, ABodyImport w_extend); (0, AComplete JImport);
-               (0, ABodyConvert); (0, AComplete JConvert)].
+               (0, ABodyConvert []); (0, AComplete JConvert)].
 
 (* output exists, then an import resets stream 0 *)
 Definition w_resetrun : list (N * action) :=
-  w_prefix ++ [(0, ABodyConvert); (0, AComplete JConvert);
+  w_prefix ++ [(0, ABodyConvert []); (0, AComplete JConvert);
                (0, AImport [1]); (0, ABodyImport w_reset); (0, AComplete JImport);
-               (0, ABodyTag [(3, 1)]); (0, AComplete JTag); (0, ABodyConvert); (0, AComplete JConvert)].
+               (0, ABodyTag [(3, 1)]); (0, AComplete JTag); (0, ABodyConvert []); (0, AComplete JConvert)].
 
 Definition stale_at_rest (st : state) : bool :=
   match jconv st, cache st 0 0 with
